@@ -88,7 +88,11 @@ def _produce(d, tier, seed):
     # ---- world B: limit bids
     tb = os.path.join(d, "TB.txt")
     kb = 'Bidders = {"u1", "u2"}  DepAmts = {10, 25}  Prems = {2, 5}  MaxDeps = %d  Fund = 60  Emit = TRUE' % (2 if quick else 3)
-    mcb = [_mc(d, "MC_LimitBid", "book", kb, "InvTotal InvNonNeg InvCustody", None, tb)]
+    kb += "  FillDebt = 0"
+    mcb = [_mc(d, "MC_LimitBid", "book", kb, "InvBookClean InvTotal InvNonNeg InvCustody", None, tb)]
+    # design-level run with abstract automatic fills (deposits below / equal to / above the auction's remaining debt); not walked
+    kf = 'Bidders = {"u1", "u2"}  DepAmts = {10, 25, 40}  Prems = {2, 5}  MaxDeps = 2  Fund = 100  Emit = FALSE  FillDebt = 25'
+    mcb.append(_mc(d, "MC_LimitBid", "fills", kf, "InvBookClean InvTotal InvNonNeg", None, None))
     lb = os.path.join(d, "b.ndjson")
     runs, steps = (30, 80) if quick else (250, 120)
     vlib.run_vh(["english", "--world", "B", "--tfile", tb, "--out", lb, "--seed", str(seed), "--runs", str(runs), "--steps", str(steps)], timeout=3000)
@@ -153,14 +157,14 @@ def run(c):
     c.judge(B, lb)
     sa, sb = A["stats"], B["stats"]
     need = dict(acceptedBids=sa.get("acceptedBids", 0), outbids=sa.get("outbids", 0), rejectedBids=sa.get("rejectedBids", 0),
-                closesGen1=sa.get("closesGen1", 0), closesGen2=sa.get("closesGen2", 0), noTokenMintHooks=sa.get("noTokenMintHooks", 0),
+                closesGen1=sa.get("closesGen1", 0), closesGen2=sa.get("closesGen2", 0), dueGen1=sa.get("dueGen1", 0), dueGen2=sa.get("dueGen2", 0), noTokenMintHooks=sa.get("noTokenMintHooks", 0),
                 shutdownEndsWithBid=sa.get("shutdownEndsWithBid", 0), shutdownEndsNoBid=sa.get("shutdownEndsNoBid", 0),
                 shutdownEndsSurplus=sa.get("shutdownEndsSurplus", 0), shutdownEndsDebt=sa.get("shutdownEndsDebt", 0),
                 deposits=sb.get("deposits", 0), cancels=sb.get("cancels", 0), withdraws=sb.get("withdraws", 0),
                 withdrawOver=sb.get("withdrawOver", 0), withdrawOtherDenom=sb.get("withdrawOtherDenom", 0),
-                fillsExact=sb.get("fillsExact", 0), fillsOver=sb.get("fillsOver", 0), fillsUnder=sb.get("fillsUnder", 0))
+                fillsExact=sb.get("fillsExact", 0), fillsExactSingle=sb.get("fillsExactSingle", 0), fillsOver=sb.get("fillsOver", 0), fillsUnder=sb.get("fillsUnder", 0))
     zero = [k for k, v in need.items() if v == 0]
-    if zero:
+    if zero and not c.violations:   # vacuity only guards an all-green result: a violation on real-code states is a verdict
         raise vlib.NoVerdict("vacuous run, antecedent counters are 0: %s" % zero)
     c.samples = sample_nodes(la, {"BidV1Surplus", "BidV1Debt", "BidV2", "Block"}) + sample_nodes(lb, {"Deposit", "Withdraw", "Cancel"})
     mcs = A["mc"] + B["mc"]
